@@ -222,7 +222,7 @@ restatement and callee would show up there within scope.
 | U11 `vx_find_words` (`is_ascii_space(sep) ==> tails_ok`), `vx_split_words` (`tails_ok(in) ==> tails_ok(out)`), `break_words` (`tails_ok(in) ==> tails_ok(out)`) — C01's last sentence | U13 `find_words` (the dispatcher: `AsciiSpace` selects `find_words_ascii_space` on this line) + `vx_collect_ascii_words`; U14 `vx_split_words_collect`; U6 `break_words` (+ U15) | same predicate `tails_ok` (same text in the four units: no word holds a space; a word without text has nothing in front of it); U14 proves it for every splitter whose split points satisfy `valid_points` (the built-in ones: U16; a custom one: its author's obligation A15, exactly as for the tiling clause); `is_ascii_space(sep)` in U11 stands for `sep is AsciiSpace` in U13 |
 | U11, U13, U20 `vx_word_from` / `word_from_post` | U6 `Word::from` | the five clauses of U6, or a subset |
 | U11 `vx_wrap_algorithm_wrap`: ordered partition | U17 `WrapAlgorithm::wrap` → U1, U2 (`partition`) | same four clauses (`runs_concat` and `concat_lines` are the same fold) |
-| U10 `vx_ascii_find_words_collect`, `vx_wrap_first_fit_1` | U13, U1 | same clauses, plus "the result is a function of the argument" (purity) |
+| U10 `vx_ascii_find_words_collect` (for the call `WordSeparator::AsciiSpace.find_words(line)`), `vx_wrap_first_fit_1` | U13 (the `find_words` dispatcher + `vx_collect_ascii_words`), U1 | same clauses, plus "the result is a function of the argument" (purity) |
 | U11 all five word-stage callees: `r == f(args)` with `f` uninterpreted (`fw_spec`, `sw_spec`, `bw_spec`, `wf_spec`, `wa_spec`) | U13/U20, U14, U6/U15, U6, U17/U1/U2 | not a clause of the providers: determinism of safe, state-free Rust (A17); for U13, U20, U16+U14, U15 and U1 the proved contracts determine the result uniquely; `wa_spec(..).len() >= 1` restates C06 |
 | U2 `vx_online_column_minima`: call shape, result shape, `2·size − 3 <= usize::MAX` | U24 `online_column_minima` (generic `T`; U2 uses `T = f64`) | same clauses: `call_ok` ≡ the antecedent of U2's `requires`, `table_shape` ≡ `minima_ok` |
 | U14 `vx_split_points_iter`: increasing char boundaries inside the word | U16 `split_points` | proved for the two built-in splitters; `Custom`: A15 |
